@@ -39,9 +39,11 @@ theorem OTy.check_of_valid (O : Oracles) (site : Str) {ty : OTy} {v : WVal}
   | forwardFor atParse =>
     cases v <;> simp_all [OTy.valid, OTy.check]
     cases atParse <;> simp_all
-  | boolLoose =>
-    cases v <;> simp_all [OTy.valid, OTy.check, WVal.isNull]
-  | unchecked => simp [OTy.check]
+  | id => cases v <;> simp_all [OTy.valid, OTy.check]
+  | listId => cases v <;> simp_all [OTy.valid, OTy.check]
+  | boolOrNull => cases v <;> simp_all [OTy.valid, OTy.check, WVal.isNull, WVal.isBool]
+  | strOrNull => cases v <;> simp_all [OTy.valid, OTy.check, WVal.isNull, WVal.isStr]
+  | dictOrNull => cases v <;> simp_all [OTy.valid, OTy.check, WVal.isNull, WVal.isDict]
   | roles a f => simp [OTy.isRoles] at hr
 
 /-- what passes the check has the declared type (and, apart from `roles`, is returned unchanged) -/
@@ -73,10 +75,15 @@ theorem OTy.valid_of_check (O : Oracles) (site : Str) {ty : OTy} {v w : WVal}
     cases v <;> simp_all [OTy.valid, OTy.check, fail]
     split at h <;> simp_all
     cases atParse <;> simp_all
-  | boolLoose =>
-    cases v <;> simp_all [OTy.valid, OTy.check, WVal.isNull, fail] <;>
-    (split at h <;> simp_all)
-  | unchecked => simp_all [OTy.check, OTy.valid]
+  | id =>
+    cases v <;> simp_all [OTy.valid, OTy.check, fail]
+    split at h <;> simp_all
+  | listId =>
+    cases v <;> simp_all [OTy.valid, OTy.check, fail]
+    split at h <;> simp_all
+  | boolOrNull => cases v <;> simp_all [OTy.valid, OTy.check, WVal.isNull, WVal.isBool, fail]
+  | strOrNull => cases v <;> simp_all [OTy.valid, OTy.check, WVal.isNull, WVal.isStr, fail]
+  | dictOrNull => cases v <;> simp_all [OTy.valid, OTy.check, WVal.isNull, WVal.isDict, fail]
   | roles a f => simp [OTy.isRoles] at hr
 
 end Abverif.Wamp
